@@ -198,6 +198,8 @@ func c04Prop(t *testing.T, k *verifkit.Kit) func(c c04Case) error {
 				} else if !f {
 					misLogsWant++
 				}
+			} else if !f || amb {
+				misLogsAmb++ // (configured lifetime 0, or the final RA, while not forwarding: a report is neither demanded nor forbidden)
 			}
 		}
 		// 2. the consistency check's own RA (hook)
@@ -236,7 +238,7 @@ func c04Prop(t *testing.T, k *verifkit.Kit) func(c c04Case) error {
 				if (o.Fwd == 1) != f {
 					return verifkit.Violf("C04/forwarding-gauge-wrong", "scrape at %v: interface_forwarding{%s} = %v, forwarding is %v\n%s", o.At, o.Iface, o.Fwd, f, tl)
 				}
-				if want := !f && cfgLife > 0; o.Miscfg != want {
+				if want := !f && cfgLife > 0; o.Miscfg != want && !(!f && cfgLife == 0) { // (configured lifetime 0 while not forwarding: "whenever forwarding is disabled" says report, the code reports a *mis*configuration only - either)
 					return verifkit.Violf("C04/misconfiguration-gauge-wrong", "scrape at %v: interface_not_forwarding{%s} present=%v, want %v (forwarding=%v lifetime=%d)\n%s", o.At, o.Iface, o.Miscfg, want, f, cfgLife, tl)
 				}
 			case "api":
